@@ -130,8 +130,12 @@ func (h *Handler) handleRequest(host *packet.Host, p packet.DHCP4, options packe
 			// Keep state discover in case we get a second request
 			// Free all other states - the host is trying to get an IP from the other server
 			if lease.State != StateDiscover {
+				revoked := lease.State == StateAllocated
 				lease.State = StateFree
 				lease.Addr.IP = netip.Addr{}
+				if revoked {
+					h.saveConfig(h.filename) // the lease file must not keep a binding the client gave up
+				}
 			}
 
 			if h.mode == ModeSecondaryServer || (h.mode == ModeSecondaryServerNice && captured) {
